@@ -25,6 +25,8 @@ type NodeOpts struct {
 	Strategies map[string]string
 	CacheSize  int // 0 = production account cache
 	ChainID    uint64
+	// WrapState, if set, wraps the state store handed to the ledger (fault injection); dumps still read the raw store
+	WrapState func(storage.Storage) storage.Storage
 }
 
 func (o NodeOpts) withDefaults() NodeOpts {
@@ -130,6 +132,56 @@ func OpenNode(dir string, opts NodeOpts) *Node {
 	return n
 }
 
+// TryOpenNode is OpenNode for directories that may be inconsistent (crash images): errors and panics
+// of the open path are returned instead of aborting the process, and every store is closed again.
+func TryOpenNode(dir string, opts NodeOpts) (n *Node, err error) {
+	defer func() {
+		if r := recover(); r != nil {
+			err = fmt.Errorf("%v", r)
+			if n != nil {
+				n.closeStores()
+			}
+			n = nil
+		}
+	}()
+	o := opts.withDefaults()
+	tmpl := OpenNodeConfigOnly(dir, o)
+	tmpl.open()
+	return tmpl, nil
+}
+
+// OpenNodeConfigOnly prepares a node object without touching the directory.
+func OpenNodeConfigOnly(dir string, o NodeOpts) *Node {
+	n := &Node{Dir: dir, Opts: o}
+	n.Cfg = buildConfig(dir, o)
+	nodeKey := KeyFor("node-1")
+	var nodes []*verifhook.NetworkNodes
+	for i := 1; i <= 4; i++ {
+		nodes = append(nodes, &verifhook.NetworkNodes{ID: uint64(i), Pid: fmt.Sprintf("QmVerifPid%d", i), Hosts: []string{fmt.Sprintf("/ip4/127.0.0.1/tcp/400%d/p2p/", i)}, Account: KeyFor(fmt.Sprintf("node-%d", i)).Addr.String()})
+	}
+	n.Repo = &verifhook.Repo{
+		Config:        n.Cfg,
+		NetworkConfig: &verifhook.NetworkConfig{ID: 1, N: 4, Nodes: nodes, Genesis: n.Cfg.Genesis},
+		Key:           &verifhook.Key{Address: nodeKey.Addr.String(), PrivKey: nodeKey.Priv},
+	}
+	for i := 0; i < o.Admins; i++ {
+		n.Admins = append(n.Admins, AdminKey(i))
+	}
+	return n
+}
+
+func (n *Node) closeStores() {
+	if n.StateDB != nil {
+		_ = n.StateDB.Close()
+	}
+	if n.ChainDB != nil {
+		_ = n.ChainDB.Close()
+	}
+	if n.BF != nil {
+		_ = n.BF.Close()
+	}
+}
+
 func (n *Node) open() {
 	var err error
 	openWithRetry(func() error {
@@ -169,12 +221,16 @@ func (n *Node) open() {
 			panic(err)
 		}
 	}
-	n.Ledger, err = verifhook.NewLedger(n.Repo, n.ChainDB, n.StateDB, n.BF, cache, Logger)
+	var stateForLedger storage.Storage = n.StateDB
+	if n.Opts.WrapState != nil {
+		stateForLedger = n.Opts.WrapState(n.StateDB)
+	}
+	n.Ledger, err = verifhook.NewLedger(n.Repo, n.ChainDB, stateForLedger, n.BF, cache, Logger)
 	if err != nil {
 		panic(fmt.Sprintf("verif: ledger.New: %v", err))
 	}
 	n.ViewLdg = &verifhook.Ledger{ChainLedger: n.Ledger.ChainLedger}
-	n.ViewLdg.StateLedger, err = verifhook.NewSimpleLedger(n.Repo, n.StateDB, nil, Logger)
+	n.ViewLdg.StateLedger, err = verifhook.NewSimpleLedger(n.Repo, stateForLedger, nil, Logger)
 	if err != nil {
 		panic(err)
 	}
